@@ -49,10 +49,21 @@ pub fn eval_obs(e: &Expr, input: &Value) -> Obs {
 }
 
 pub fn replay_case(case: &J, rep: &mut Report) {
+    replay_case_pass(case, rep, false)
+}
+
+/// the same cell once more, in another order of the chunk (see main.rs): nothing is counted, only mismatches are
+pub fn replay_case_again(case: &J, rep: &mut Report) {
+    replay_case_pass(case, rep, true)
+}
+
+fn replay_case_pass(case: &J, rep: &mut Report, again: bool) {
     let kind = case["k"].as_str().unwrap_or("?").to_string();
     let exp = expected(&kind, case);
     if exp.get("ap").and_then(|a| a.as_str()) == Some("unmodelled") {
-        rep.skipped += 1;
+        if !again {
+            rep.skipped += 1;
+        }
         return;
     }
     let n_operands = if kind == "index" { 1 } else { case["a"].as_array().map(|a| a.len()).unwrap_or(0) };
@@ -75,15 +86,52 @@ pub fn replay_case(case: &J, rep: &mut Report) {
             Ok(e) => e,
             Err(e) => return rep.tool_error(e),
         };
-        let obs = eval_obs(&e, inp);
+        // the same expression object is evaluated twice, then a clone of it: an outcome is a function of expression and
+        // input, whatever was evaluated before
+        let e2 = e.clone();
+        for (pass, ex) in [("first evaluation", &e), ("second evaluation of the same expression", &e), ("evaluation of a clone", &e2)] {
+            let obs = eval_obs(ex, inp);
+            rep.evaluations += 1;
+            if let Err(why) = matches(&exp, &obs) {
+                if why.starts_with("TOOL:") {
+                    return rep.tool_error(why);
+                }
+                rep.mismatch(&key, json!({"engine": "ops", "shape": shape, "pass": pass, "case": case, "expr": e.to_string(), "expected": exp, "observed": obs_to_model(&obs), "why": why}));
+                return;
+            }
+        }
+    }
+    // shape 3: operands through the symbol table of a ruleset (`:l`, `:r`), the expression as its only rule
+    {
+        let syms: Vec<Expr> = (0..vals.len()).map(|i| Expr::symbol(names[i])).collect();
+        let e = match build(&kind, &syms, case) {
+            Ok(e) => e,
+            Err(e) => return rep.tool_error(e),
+        };
+        let mut b = reval::prelude::ruleset();
+        for (i, v) in vals.iter().enumerate() {
+            b = b.with_symbol(names[i], v.clone());
+        }
+        let rs = match b.with_rule(reval::prelude::Rule::new("cell", BTreeMap::new(), e.clone())) {
+            Ok(b) => b.build(),
+            Err(e) => return rep.tool_error(format!("with_rule: {e}")),
+        };
+        let obs = match block_on(rs.evaluate_value(&Value::None)) {
+            Err(p) => Obs::Panic(p),
+            Ok(Err(err)) => classify(&err),
+            Ok(Ok(mut outs)) if outs.len() == 1 => match outs.remove(0).value { Ok(v) => Obs::Ok(v), Err(e) => classify(&e) },
+            Ok(Ok(outs)) => Obs::Panic(format!("{} outcomes for one rule", outs.len())),
+        };
         rep.evaluations += 1;
         if let Err(why) = matches(&exp, &obs) {
             if why.starts_with("TOOL:") {
                 return rep.tool_error(why);
             }
-            rep.mismatch(&key, json!({"engine": "ops", "shape": shape, "case": case, "expr": e.to_string(), "expected": exp, "observed": obs_to_model(&obs), "why": why}));
+            rep.mismatch(&key, json!({"engine": "ops", "shape": "symbol", "case": case, "expr": e.to_string(), "expected": exp, "observed": obs_to_model(&obs), "why": why}));
             return;
         }
     }
-    rep.case_ok(class_of(&exp) != "Type", || json!({"case": case, "observed": "as expected"}));
+    if !again {
+        rep.case_ok(class_of(&exp) != "Type", || json!({"case": case, "observed": "as expected"}));
+    }
 }
